@@ -1,5 +1,6 @@
 // unit tree_graph — C12: arena consistency of Tree<N,K> (src/tree/graph.rs)
 use vstd::prelude::*;
+use std::mem;
 verus! {
 
 pub type TreeIndex = usize;
@@ -23,7 +24,181 @@ impl vstd::std_specs::convert::FromSpecImpl<InvalidTreeIndexError> for NodeError
     open spec fn from_spec(e: InvalidTreeIndexError) -> NodeError { NodeError::InvalidIndex(e) }
 }
 
+// assumption A-from: the error conversion performed by `?` is the `From` impl above
+pub mod ax {
+    use super::*;
+    pub broadcast axiom fn axiom_from_invalid_index(e: InvalidTreeIndexError, r: NodeError)
+        ensures #[trigger] vstd::std_specs::control_flow::spec_from::<NodeError, InvalidTreeIndexError>(e, r) ==> r == NodeError::InvalidIndex(e);
+}
+broadcast use ax::axiom_from_invalid_index;
+
 //@include prelude/tree_spec.rs
+
+// two arenas with the same domain and the same links (values may differ)
+pub open spec fn same_shape<N, const K: usize>(a0: Arena<N, K>, a1: Arena<N, K>) -> bool {
+    a0.dom() =~= a1.dom() && forall|i: usize| #![trigger a1[i]] a0.dom().contains(i) ==>
+        a0[i].parent == a1[i].parent && a0[i].children == a1[i].children && a0[i].isleaf == a1[i].isleaf
+}
+
+pub proof fn lemma_same_shape_wf<N, const K: usize>(a0: Arena<N, K>, a1: Arena<N, K>, root: Option<usize>)
+    requires wf_at(a0, root), same_shape(a0, a1)
+    ensures wf_at(a1, root)
+{
+    let d = choose|d: Map<usize, nat>| ranked(a0, d);
+    assert(ranked(a1, d)) by {
+        assert forall|c: usize| a1.dom().contains(c) && (#[trigger] a1[c].parent).is_some() implies d[a1[c].parent.unwrap()] < d[c] by {
+            assert(a0[c].parent == a1[c].parent);
+        }
+    }
+    assert(kids_ok(a1)) by {
+        assert forall|i: usize, l: int| a1.dom().contains(i) && 0 <= l < K && (#[trigger] a1[i].children[l]).is_some() implies
+            a1.dom().contains(a1[i].children[l].unwrap()) && a1[a1[i].children[l].unwrap()].parent == Some(i) by {
+            assert(a0[i].children[l] == a1[i].children[l]);
+            let c = a0[i].children[l].unwrap();
+            assert(a0[c].parent == a1[c].parent);
+        }
+    }
+    assert(parents_ok(a1)) by {
+        assert forall|c: usize| a1.dom().contains(c) && (#[trigger] a1[c].parent).is_some() implies
+            a1.dom().contains(a1[c].parent.unwrap())
+            && exists|l: int| 0 <= l < K && #[trigger] a1[a1[c].parent.unwrap()].children[l] == Some(c) by {
+            assert(a0[c].parent == a1[c].parent);
+            let p = a0[c].parent.unwrap();
+            let l = choose|l: int| 0 <= l < K && #[trigger] a0[p].children[l] == Some(c);
+            assert(a1[p].children[l] == Some(c));
+        }
+    }
+    assert(kids_unique(a1)) by {
+        assert forall|i: usize, l1: int, l2: int| a1.dom().contains(i) && 0 <= l1 < K && 0 <= l2 < K && l1 != l2
+            && (#[trigger] a1[i].children[l1]).is_some() implies a1[i].children[l1] != #[trigger] a1[i].children[l2] by {
+            assert(a0[i].children[l1] == a1[i].children[l1]);
+            assert(a0[i].children[l2] == a1[i].children[l2]);
+        }
+    }
+    assert(leaf_ok(a1)) by {
+        assert forall|i: usize| a1.dom().contains(i) implies (#[trigger] a1[i].isleaf <==> no_kids(a1[i])) by {
+            assert(a0[i].isleaf == a1[i].isleaf);
+            assert(a0[i].children == a1[i].children);
+            assert(no_kids(a0[i]) <==> no_kids(a1[i]));
+        }
+    }
+    assert(root_ok(a1, root)) by {
+        assert forall|i: usize| a1.dom().contains(i) && (#[trigger] a1[i].parent).is_none() implies root == Some(i) by {
+            assert(a0[i].parent == a1[i].parent);
+        }
+        if root.is_some() { assert(a0[root.unwrap()].parent == a1[root.unwrap()].parent); }
+    }
+}
+
+// a1 is a0 with a fresh leaf c hung below `parent` at slot `label`
+pub open spec fn child_added<N, const K: usize>(a0: Arena<N, K>, a1: Arena<N, K>, parent: usize, label: usize, c: usize) -> bool {
+    &&& a0.dom().contains(parent) && label < K && a0[parent].children[label as int].is_none()
+    &&& !a0.dom().contains(c) && a1.dom() =~= a0.dom().insert(c)
+    &&& a1[c].parent == Some(parent) && a1[c].isleaf && no_kids(a1[c])
+    &&& a1[parent].children@ == a0[parent].children@.update(label as int, Some(c))
+    &&& a1[parent].parent == a0[parent].parent && !a1[parent].isleaf
+    &&& forall|i: usize| a0.dom().contains(i) && i != parent ==> a1[i] == a0[i]
+}
+
+pub proof fn lemma_add_child_wf<N, const K: usize>(a0: Arena<N, K>, a1: Arena<N, K>, root: Option<usize>, parent: usize, label: usize, c: usize)
+    requires wf_at(a0, root), child_added(a0, a1, parent, label, c)
+    ensures wf_at(a1, root)
+{
+    let d = choose|d: Map<usize, nat>| ranked(a0, d);
+    let d1 = d.insert(c, d[parent] + 1);
+    assert(c != parent);
+    assert(forall|l: int| 0 <= l < K && l != label ==> a1[parent].children[l] == a0[parent].children[l]) by {
+        assert forall|l: int| 0 <= l < K && l != label implies a1[parent].children[l] == a0[parent].children[l] by {
+            assert(a1[parent].children@[l] == a0[parent].children@[l]);
+        }
+    }
+    assert(a1[parent].children[label as int] == Some(c)) by { assert(a1[parent].children@[label as int] == Some(c)); }
+    // no old node lists c (c was not in the arena)
+    assert forall|i: usize, l: int| a0.dom().contains(i) && 0 <= l < K implies (#[trigger] a0[i].children[l]) != Some(c) by {}
+    assert(ranked(a1, d1)) by {
+        assert forall|x: usize| a1.dom().contains(x) && (#[trigger] a1[x].parent).is_some() implies d1[a1[x].parent.unwrap()] < d1[x] by {
+            if x == c {} else {
+                assert(a1[x].parent == a0[x].parent);
+                assert(a0.dom().contains(a0[x].parent.unwrap()));
+            }
+        }
+    }
+    assert(kids_ok(a1)) by {
+        assert forall|i: usize, l: int| a1.dom().contains(i) && 0 <= l < K && (#[trigger] a1[i].children[l]).is_some() implies
+            a1.dom().contains(a1[i].children[l].unwrap()) && a1[a1[i].children[l].unwrap()].parent == Some(i) by {
+            if i == c { assert(a1[c].children[l].is_none()); }
+            else if i == parent && l == label {}
+            else {
+                assert(a1[i].children[l] == a0[i].children[l]);
+                let x = a0[i].children[l].unwrap();
+                assert(x != c);
+                assert(a1[x].parent == a0[x].parent);
+            }
+        }
+    }
+    assert(parents_ok(a1)) by {
+        assert forall|x: usize| a1.dom().contains(x) && (#[trigger] a1[x].parent).is_some() implies
+            a1.dom().contains(a1[x].parent.unwrap())
+            && exists|l: int| 0 <= l < K && #[trigger] a1[a1[x].parent.unwrap()].children[l] == Some(x) by {
+            if x == c { assert(a1[parent].children[label as int] == Some(c)); }
+            else {
+                assert(a1[x].parent == a0[x].parent);
+                let p = a0[x].parent.unwrap();
+                let l = choose|l: int| 0 <= l < K && #[trigger] a0[p].children[l] == Some(x);
+                assert(l != label || p != parent);
+                assert(a1[p].children[l] == Some(x));
+            }
+        }
+    }
+    assert(kids_unique(a1)) by {
+        assert forall|i: usize, l1: int, l2: int| a1.dom().contains(i) && 0 <= l1 < K && 0 <= l2 < K && l1 != l2
+            && (#[trigger] a1[i].children[l1]).is_some() implies a1[i].children[l1] != #[trigger] a1[i].children[l2] by {
+            if i == c { assert(a1[c].children[l1].is_none()); }
+            else if i == parent {
+                if l1 == label { assert(a1[i].children[l2] == a0[i].children[l2]); }
+                else if l2 == label { assert(a1[i].children[l1] == a0[i].children[l1]); }
+                else { assert(a1[i].children[l1] == a0[i].children[l1]); assert(a1[i].children[l2] == a0[i].children[l2]); }
+            } else {
+                assert(a1[i].children[l1] == a0[i].children[l1]); assert(a1[i].children[l2] == a0[i].children[l2]);
+            }
+        }
+    }
+    assert(leaf_ok(a1)) by {
+        assert forall|i: usize| a1.dom().contains(i) implies (#[trigger] a1[i].isleaf <==> no_kids(a1[i])) by {
+            if i == c {} else if i == parent { assert(a1[i].children[label as int].is_some()); }
+            else { assert(a1[i] == a0[i]); }
+        }
+    }
+    assert(root_ok(a1, root)) by {
+        assert forall|i: usize| a1.dom().contains(i) && (#[trigger] a1[i].parent).is_none() implies root == Some(i) by {
+            if i != c { assert(a1[i].parent == a0[i].parent); }
+        }
+        if root.is_some() { assert(a1[root.unwrap()].parent == a0[root.unwrap()].parent); }
+        if root.is_none() { assert(a0.dom().contains(parent)); }
+    }
+}
+
+pub proof fn lemma_same_shape_wf_all<N, const K: usize>(a0: Arena<N, K>, root: Option<usize>)
+    requires wf_at(a0, root)
+    ensures forall|a1: Arena<N, K>| #[trigger] same_shape(a0, a1) ==> wf_at(a1, root)
+{
+    assert forall|a1: Arena<N, K>| #[trigger] same_shape(a0, a1) implies wf_at(a1, root) by { lemma_same_shape_wf(a0, a1, root); }
+}
+
+// complete effect of add_child_node: error => unchanged; success => child_added
+pub open spec fn add_child_post<N, const K: usize>(a0: Arena<N, K>, a1: Arena<N, K>, parent: usize, label: usize, r: Result<usize, NodeError>) -> bool {
+    &&& r is Err ==> a1 == a0
+    &&& r is Ok ==> child_added(a0, a1, parent, label, r->Ok_0)
+}
+
+pub proof fn lemma_add_child_wf_all<N, const K: usize>(a0: Arena<N, K>, root: Option<usize>, parent: usize, label: usize)
+    requires wf_at(a0, root)
+    ensures forall|a1: Arena<N, K>, r: Result<usize, NodeError>| #[trigger] add_child_post(a0, a1, parent, label, r) ==> wf_at(a1, root)
+{
+    assert forall|a1: Arena<N, K>, r: Result<usize, NodeError>| #[trigger] add_child_post(a0, a1, parent, label, r) implies wf_at(a1, root) by {
+        if r is Ok { lemma_add_child_wf(a0, a1, root, parent, label, r->Ok_0); }
+    }
+}
 
 impl<T, const K: usize> TreeNode<T, K> {
 //@fn src/tree/graph.rs | impl<T, const K: usize> TreeNode<T, K> | new
@@ -75,6 +250,106 @@ impl<N, const K: usize> Tree<N, K> {
 //@spec
     requires self.arena@.dom().contains(node)
     ensures r == count_some_from(self.arena@[node].children, 0), r <= K
+//@end
+
+//@fn src/tree/graph.rs | impl<N, const K: usize> Tree<N, K> | get_root_idx
+//@spec
+    requires self.root is Some
+    ensures Some(r) == self.root
+//@end
+
+//@fn src/tree/graph.rs | impl<N, const K: usize> Tree<N, K> | parent
+//@spec
+    requires parents_ok(self.arena@)
+    ensures
+        !self.arena@.dom().contains(node_idx) ==> (r matches Err(NodeError::InvalidIndex(e)) && e.index == node_idx),
+        self.arena@.dom().contains(node_idx) && self.arena@[node_idx].parent is None
+            ==> (r matches Err(NodeError::MissingParent { index }) && index == node_idx),
+        self.arena@.dom().contains(node_idx) && self.arena@[node_idx].parent is Some ==> (r matches Ok(e)
+            && Some(e.source_idx) == self.arena@[node_idx].parent && e.target_idx == node_idx && e.label < K
+            && self.arena@[e.source_idx].children[e.label as int] == Some(node_idx)
+            && (forall|l: int| 0 <= l < e.label ==> self.arena@[e.source_idx].children[l] != Some(node_idx))
+            && *e.source_value == self.arena@[e.source_idx].value && *e.target_value == self.arena@[node_idx].value),
+//@loop 1
+        invariant
+            parent.children.len() == K,
+            *parent == self.arena@[parent_idx], *node == self.arena@[node_idx],
+            node.parent == Some(parent_idx), self.arena@.dom().contains(node_idx), self.arena@.dom().contains(parent_idx),
+            forall|l: int| 0 <= l < label ==> parent.children[l] != Some(node_idx),
+//@end
+
+//@fn src/tree/graph.rs | impl<N, const K: usize> Tree<N, K> | child
+//@spec
+    requires label < K
+    ensures
+        !self.arena@.dom().contains(node_idx) ==> (r matches Err(NodeError::InvalidIndex(e)) && e.index == node_idx),
+        self.arena@.dom().contains(node_idx) && self.arena@[node_idx].children[label as int] is None
+            ==> (r matches Err(NodeError::MissingChild { parent, label: l }) && parent == node_idx && l == label),
+        self.arena@.dom().contains(node_idx) && self.arena@[node_idx].children[label as int] is Some
+            && !self.arena@.dom().contains(self.arena@[node_idx].children[label as int].unwrap())
+            ==> r is Err,
+        self.arena@.dom().contains(node_idx) && self.arena@[node_idx].children[label as int] is Some
+            && self.arena@.dom().contains(self.arena@[node_idx].children[label as int].unwrap())
+            ==> (r matches Ok(e) && e.source_idx == node_idx && e.label == label
+                && Some(e.target_idx) == self.arena@[node_idx].children[label as int]
+                && *e.source_value == self.arena@[node_idx].value && *e.target_value == self.arena@[e.target_idx].value),
+//@end
+
+//@fn src/tree/graph.rs | impl<N, const K: usize> Tree<N, K> | add_root
+//@spec
+    ensures
+        final(self).root == Some(r),
+        !old(self).arena@.dom().contains(r),
+        final(self).arena@.dom() == old(self).arena@.dom().insert(r),
+        forall|i: usize| old(self).arena@.dom().contains(i) ==> final(self).arena@[i] == old(self).arena@[i],
+        final(self).arena@[r].value == value, final(self).arena@[r].parent is None,
+        final(self).arena@[r].isleaf, no_kids(final(self).arena@[r]),
+        // documented exception: only a previously empty tree stays well-formed
+        old(self).arena@.dom() =~= Set::<usize>::empty() ==> final(self).wf(),
+//@hint end
+        proof {
+            if old(self).arena@.dom() =~= Set::<usize>::empty() {
+                let a = self.arena@;
+                assert(a.dom() =~= set![idx]);
+                assert(ranked(a, Map::<usize, nat>::empty().insert(idx, 0nat)));
+                assert(no_kids(a[idx]));
+            }
+        }
+//@end
+
+//@fn src/tree/graph.rs | impl<N, const K: usize> Tree<N, K> | add_child_node
+//@spec
+    requires old(self).wf(), label < K
+    ensures
+        // an operation that returns an error leaves the tree observably unchanged;
+        // success: a fresh leaf under (parent, label), every other node keeps index and value
+        add_child_post(old(self).arena@, final(self).arena@, parent, label, r),
+        r matches Ok(c) ==> final(self).arena@[c].value == value
+            && final(self).arena@[parent].value == old(self).arena@[parent].value,
+        r is Err <==> !old(self).arena@.dom().contains(parent) || old(self).arena@[parent].children[label as int] is Some,
+        !old(self).arena@.dom().contains(parent) ==> (r matches Err(NodeError::InvalidIndex(e)) && e.index == parent),
+        final(self).root == old(self).root,
+        // the structural invariant is preserved (follows from the effect clause by lemma_add_child_wf)
+        add_child_post(old(self).arena@, final(self).arena@, parent, label, r) ==> final(self).wf(),
+//@hint start
+        proof { lemma_add_child_wf_all(old(self).arena@, old(self).root, parent, label); }
+//@end
+
+//@fn src/tree/graph.rs | impl<N, const K: usize> Tree<N, K> | update_node
+//@spec
+    requires old(self).wf()
+    ensures
+        final(self).root == old(self).root,
+        same_shape(old(self).arena@, final(self).arena@),
+        same_shape(old(self).arena@, final(self).arena@) ==> final(self).wf(),
+        !old(self).arena@.dom().contains(idx) ==> (r matches Err(NodeError::InvalidIndex(e)) && e.index == idx
+            && final(self).arena@ == old(self).arena@),
+        old(self).arena@.dom().contains(idx) ==> (r matches Ok(v) && v == old(self).arena@[idx].value
+            && same_shape(old(self).arena@, final(self).arena@)
+            && final(self).arena@[idx].value == value
+            && forall|i: usize| old(self).arena@.dom().contains(i) && i != idx ==> final(self).arena@[i] == old(self).arena@[i]),
+//@hint start
+        proof { lemma_same_shape_wf_all(old(self).arena@, old(self).root); }
 //@end
 
 }
